@@ -80,6 +80,12 @@ def run(tier):
             scs.append({'argv': ['-n', '--skip-rate-test', rating.HOST], 'servers': {(rating.HOST, 22): cfg}})
             names.append(name)
             conformant.append((name, cfg))
+            if keys == list(p['host_keys']) and p['dh_modulus_sizes']:
+                # the same server enforcing the requested range strictly: requests it cannot satisfy are refused with SSH_MSG_DISCONNECT
+                cfg3 = peers.ServerCfg(cfg)
+                cfg3['gex'] = {'per_alg': {a: {'style': 'strict', 'moduli': [b]} for a, b in p['dh_modulus_sizes'].items()}}
+                scs.append({'argv': ['-n', '--skip-rate-test', rating.HOST], 'servers': {(rating.HOST, 22): cfg3}})
+                names.append(name + ' [strict group-exchange range]')
             if keys == list(p['host_keys']) and any(t.startswith('rsa-') or t == 'ssh-rsa' for t in keys):
                 # the same server hanging up on the probe for its RSA key: what was never measured is not rated (and certainly not as a failure)
                 cfg2 = peers.ServerCfg(cfg)
